@@ -1629,6 +1629,16 @@ Proof.
     exists (w :: ws). rewrite F2, Q2, Q1. split; [reflexivity|constructor; assumption].
 Qed.
 
+(* ---- the remainder loop of on_client_data: no result depends on the amount of fuel ---- *)
+Lemma client_loop_fuel_mono cfg : forall f st raw o, on_client_data_loop f cfg st raw = o ->
+  (forall st', o <> Raised OutOfFuel st') -> forall k, on_client_data_loop (f + k) cfg st raw = o.
+Proof.
+  induction f as [|f IH]; intros st raw o H Hn k.
+  - cbn [on_client_data_loop] in H. subst o. exfalso. exact (Hn st eq_refl).
+  - cbn [plus on_client_data_loop] in *. destruct (on_client_data_round cfg st raw) as [[[|] st'|e st'] [r|]]; try exact H.
+    apply IH; assumption.
+Qed.
+
 (* ===================================================================================== *)
 (* G. non-vacuity and refutations, by evaluation (statements repeated in Props/C02.v)      *)
 
@@ -1685,9 +1695,10 @@ Proof.
 Qed.
 
 Lemma te_list_refuted :
-  exists w st, feed cfg_plain true init_state [te_list_raw] = Done false st /\ upstream_queue st = [w] /\
+  exists w st, feed cfg_plain true init_state [te_list_raw] = Done true st /\ upstream_queue st = [w] /\
     w = bs "POST / HTTP/1.1" ++ CRLF ++ bs "Host: h.example" ++ CRLF ++ bs "Transfer-Encoding: gzip, chunked" ++ CRLF ++
         bs "Via: " ++ via24 ++ CRLF ++ CRLF /\
-    buffer (h_request st) = Some (bs "3" ++ CRLF ++ bs "abc" ++ CRLF ++ bs "0" ++ CRLF ++ CRLF) /\
-    ref_parse_request w = None.
+    ref_parse_request w = None /\
+    (* the body bytes were taken for a further request: "Invalid request line", connection torn down *)
+    h_pipeline st = Some (new_parser REQUEST_PARSER).
 Proof. eexists. eexists. vm_compute. repeat split. Qed.
